@@ -107,13 +107,12 @@ env_proof! {
     fn c06_truncate() {
         let (mut rl, m, before) = mk();
         let idx: u8 = kani::any();
-        // truncate(0) after a purge is C16's known finding (index - 1 underflow)
-        kani::assume(!(idx == 0 && m.purged.is_some()));
         kani::assume(m.truncate_target(idx as u64).is_none());
         let ok = is_ok(rl.truncate(idx as u64));
         assert!(!ok, "truncate at an index that does not exist must be refused");
         unchanged(&rl, &m, &before);
         kani::cover!(true, "rejected truncate");
+        kani::cover!(idx == 0 && m.purged.is_some(), "truncate(0) after a purge is refused");
         core::mem::forget(rl);
     }
 }
